@@ -2836,6 +2836,9 @@ func (s *swamp) CloneAndDeleteMatchingTreasures(beaconType BeaconType, order Bea
 		return nil, false, errors.New("beacon not available for the requested type/order")
 	}
 
+	if capPredicate != nil {
+		capMax = s.capMaxWithinIndex(beaconType, capPredicate, capMax)
+	}
 	s.claimMu.Lock()
 	shiftedTreasures, capReached := bcn.ShiftMatching(int(howMany), predicate, capPredicate, int(capMax))
 	verifhook.Point("swamp.shift.afterSelect")
